@@ -7,8 +7,9 @@ SPEC = dict(
     harness=['h_str.c'],
     # second configuration: counts/capacities near the top of the index type against a ledger allocator (harness/h_huge.c)
     configs=lambda tier: [dict(name='default'), dict(name='huge', harness=['h_huge.c'], hflags=['-DVF_HUGE=6'], nworkers=2),
+                          dict(name='arena', harness=['h_arena.c'], hflags=['-DVF_ARENA=6'], nworkers=2),  # operands at exact distances from the storage block (arena allocator through a_alloc)
                           dict(name='clang', libcc='clang', nworkers=4, of=8), dict(name='o2', libflavour='san-o2', libdrop=['-fno-strict-aliasing'], nworkers=4, of=8)],  # library compiled by clang: half of the cases
-    parallel_configs=4,
+    parallel_configs=5,
     level='exploration',
     memcheck_cases={'thorough': 1600},
     rule='seeded histories of 30-70 operations on two string objects: all append forms (catc/catn/cats/cat and their non-terminating _ twins, catf and '
@@ -33,9 +34,21 @@ SPEC = dict(
          'Judged: a heap byte-array model against length, length <= capacity, EVERY byte and the terminator after every structural call and at 2^k-2..2^k+2 inside single-byte runs '
          '(in between every call O(1): return value, length, capacity, terminator, last 16 bytes); popped bytes into exact-size pre-scrambled buffers; formatted append vs snprintf '
          'with the same format and arguments. During a large case the public a_alloc hook points at a wrapper of the default a_alloc_ that fills every grown region with 0xA5 '
-         '(fresh pages are zero and ASan pattern-fills only 4096 bytes, so a missing terminator at a large offset would otherwise pass by luck).',
+         '(fresh pages are zero and ASan pattern-fills only 4096 bytes, so a missing terminator at a large offset would otherwise pass by luck). '
+         'ARENA configuration (harness/h_arena.c, 2000 histories quick / 20000 thorough of 30-70 operations on two strings): a_alloc is a bump allocator over one region the harness owns byte by byte '
+         '(blocks aligned to 16 / 8 / 1, growth in place or always moving, released and moved-from blocks poisoned; drawn per case); the sources of catn/catn_/cats/cats_, the string argument of catf '
+         '("%s", "%.*s" unterminated, "<%s>", "%d:%s"), the trim sets, the operands of cmpn/cmps and the DESTINATION of getn/getn_ are placed directly behind the current storage block (distance 0), one '
+         'byte further, directly in front of it (a C string then ends with its NUL on the last byte before the block), one byte further in front, inside a released former block of the same string, '
+         'or outside the arena; the other string of cat/cat_/cmp gets its storage carved directly behind this string\'s block; append sizes are steered to spare-2..spare+2 and a quarter of the appends '
+         'start from len == mem (reached through catn_). After every call: the clauses above (length, capacity, bytes, terminator, formatter oracle, comparison sign), capacity <= bytes granted, operand '
+         'bytes unchanged (getn: exactly the popped tail arrived, the rest of the destination untouched), every byte of the region outside the live blocks equal to its shadow copy; at the end every block released.',
     exhaustive={},
-    require=['append-of-own-content', 'append-of-own-c-string-tail', 'cmp-with-own-storage-as-other-operand', 'trim-set-is-window-of-own-content', 'trim-set-is-window-of-own-content-both-ends-removed', 'trim-set-window-reaches-past-the-new-end', 'getn-into-window-of-own-content', 'huge-str-setm', 'huge-str-setm_', 'huge-str-setn', 'huge-str-catf-width', 'state-compared-with-model', 'terminator-after-content-inside-capacity', 'formatted-append-equals-libc-formatter',
+    require=['arena-state-compared-with-model', 'arena-non-owned-bytes-verified', 'arena-caller-operand-unchanged', 'arena-operand-directly-behind-storage', 'arena-operand-directly-in-front',
+             'arena-operand-one-element-behind-storage', 'arena-operand-one-element-in-front', 'arena-operand-in-released-former-block', 'arena-growth-moved-block-with-adjacent-operand',
+             'arena-growth-in-place', 'arena-append-growth-with-source-directly-behind', 'arena-append-exactly-full-source-directly-behind', 'arena-other-string-storage-directly-behind',
+             'arena-formatted-append-adjacent-argument', 'arena-trim-set-adjacent', 'arena-cmp-operand-adjacent', 'arena-getn-destination-adjacent', 'arena-terminator-after-content-inside-capacity',
+             'arena-exit-hands-over-terminated-content',
+             'append-of-own-content', 'append-of-own-c-string-tail', 'cmp-with-own-storage-as-other-operand', 'trim-set-is-window-of-own-content', 'trim-set-is-window-of-own-content-both-ends-removed', 'trim-set-window-reaches-past-the-new-end', 'getn-into-window-of-own-content', 'huge-str-setm', 'huge-str-setm_', 'huge-str-setn', 'huge-str-catf-width', 'state-compared-with-model', 'terminator-after-content-inside-capacity', 'formatted-append-equals-libc-formatter',
              'utf_catc-appends-encoding-plus-nul', 'getc-returns-last-byte', 'getn-returns-tail-bytes',
              'trim-removes-exactly-the-set-members-at-the-ends', 'setn-bounds', 'setm-capacity', 'swap',
              'exit-hands-over-terminated-content', 'cmp-orders-like-bytewise-lexicographic-then-length', 'accessors', 'ctor-dtor-on-caller-storage',
@@ -55,6 +68,7 @@ SPEC = dict(
     assumptions=_COMMON + ['libc snprintf is the oracle for formatted append (the property says "what the C formatter produces")',
                            'a_str_setm_ is only called with mem >= length; a_str_setn_ only with num < mem (documented preconditions)',
                            'whitespace for the empty trim set is the C-locale isspace set',
+                           'arena configuration: caller operands never overlap live storage; the library may write anywhere inside its own live blocks and nowhere else; a block handed over by a_str_exit is released through a_alloc',
                            'large class: storage obtained through the a_alloc hook may hold arbitrary bytes (the harness fills grown regions with 0xA5); '
                            'lengths stay below ~2^18 bytes in quick and ~2^21 bytes in thorough; one formatted append produces at most ~2^20 bytes (the int range of the formatter result is never approached)'],
     level_text='Byte-vector reference model compared after every call over seeded histories whose append sizes are steered onto the capacity boundary, with '
@@ -62,5 +76,5 @@ SPEC = dict(
                'power of two up to 2^16 (quick) / 2^20 (thorough) with a heap model, dense complete-state checkpoints at 2^k-2..2^k+2 and junk-filled fresh storage. '
                'Histories are unbounded; seeded sampling with boundary targeting is the reachable level.',
     level_note='trusted: harness byte model, libc snprintf; a_utf_encode (judged separately by C18) provides the expected bytes of a_utf_catc',
-    technique='seeded operation histories (small, and large through 2^16..2^20 bytes) against a byte-vector model with an independent UTF-8 encoder, libc formatter oracle, operands aliasing the own storage, ledger allocator for capacities near SIZE_MAX, ASan/LeakSanitizer red zones at the capacity boundary',
+    technique='seeded operation histories (small, and large through 2^16..2^20 bytes) against a byte-vector model with an independent UTF-8 encoder, libc formatter oracle, operands aliasing the own storage, ledger allocator for capacities near SIZE_MAX, arena allocator with caller operands at exact distances from the storage block and a shadow copy of every non-owned byte, ASan/LeakSanitizer red zones at the capacity boundary',
 )
